@@ -15,6 +15,7 @@ use std::collections::BTreeSet;
 use std::os::unix::io::AsRawFd;
 use std::os::unix::net::UnixStream;
 use std::sync::atomic::{AtomicUsize, Ordering};
+use std::sync::Arc;
 
 #[derive(Clone, Debug, Serialize, Deserialize, PartialEq)]
 pub enum Op {
@@ -480,6 +481,123 @@ fn run_any(c: &C12Any) -> CaseReport {
     }
 }
 
+/// Real threads: the last owners of an instance (the instance itself and handle clones) let go
+/// at the same moment on different threads. Whoever is last must clean up - exactly once - no
+/// matter how the drops interleave; afterwards the pipe the instance was given is closed and a
+/// delivery reaches nothing of it.
+fn concurrent_drop_child(rounds: u32, owners: u8, fd: i32) {
+    use std::sync::atomic::AtomicU32;
+    crate::vsched::install();
+    ignore_sigpipe();
+    static HITS: AtomicUsize = AtomicUsize::new(0);
+    unsafe {
+        signal_hook_registry::register(libc::SIGUSR1, || {
+            HITS.fetch_add(1, Ordering::SeqCst);
+        })
+        .expect("witness");
+    }
+    let mut leaked_pipe = 0u32;
+    let mut woken_after = 0u32;
+    let mut panicked = 0u32;
+    let mut first_bad: Option<u32> = None;
+    for round in 0..rounds {
+        let (r, w) = UnixStream::pair().expect("pair");
+        let (rfd, wfd) = (r.as_raw_fd(), w.as_raw_fd());
+        // a second reader on the same socket, to see bytes written after the owners are gone
+        let spy = unsafe { libc::dup(rfd) };
+        let inst = match SignalDelivery::with_pipe(r, w, SignalOnly::default(), &[libc::SIGUSR1]) {
+            Ok(i) => i,
+            Err(_) => break,
+        };
+        let mut parts: Vec<Box<dyn FnOnce() + Send>> = Vec::new();
+        for _ in 1..owners.max(2) {
+            let h = inst.handle();
+            parts.push(Box::new(move || drop(h)));
+        }
+        parts.push(Box::new(move || drop(inst)));
+        let go = Arc::new(AtomicU32::new(0));
+        let n = parts.len() as u32;
+        let mut ths = Vec::new();
+        for p in parts {
+            let go = go.clone();
+            ths.push(std::thread::spawn(move || {
+                go.fetch_add(1, Ordering::SeqCst);
+                while go.load(Ordering::SeqCst) < n {
+                    std::hint::spin_loop();
+                }
+                std::panic::catch_unwind(std::panic::AssertUnwindSafe(p)).is_ok()
+            }));
+        }
+        for t in ths {
+            if !t.join().unwrap_or(false) {
+                panicked += 1;
+            }
+        }
+        let mut bad = false;
+        if fd_valid(wfd) || fd_valid(rfd) {
+            leaked_pipe += 1;
+            bad = true;
+        }
+        // a delivery now must not write into the (former) self-pipe
+        unsafe { libc::raise(libc::SIGUSR1) };
+        let mut b = [0u8; 8];
+        let got = unsafe { libc::recv(spy, b.as_mut_ptr() as *mut _, 8, libc::MSG_DONTWAIT) };
+        if got > 0 {
+            woken_after += 1;
+            bad = true;
+        }
+        unsafe { libc::close(spy) };
+        if bad {
+            if first_bad.is_none() {
+                first_bad = Some(round);
+            }
+            // the leaked descriptors would shift the numbering of later rounds: stop here
+            break;
+        }
+    }
+    emit(fd, &json!({"k": "stress", "rounds": rounds, "leaked_pipe": leaked_pipe, "woken_after": woken_after, "panicked": panicked, "first_bad": first_bad, "witness": HITS.load(Ordering::SeqCst)}));
+    emit(fd, &json!({"k": "done"}));
+}
+
+pub fn concurrent_drop_probe(rounds: u32, owners: u8) -> CaseReport {
+    let (recs, end) = fork_stream(60_000, move |fd| concurrent_drop_child(rounds, owners, fd));
+    let mut rep = CaseReport::default();
+    rep.hash = hash_of(&("concurrent-drop", rounds, owners));
+    rep.class("last-owners-dropped-concurrently");
+    rep.nontrivial = true;
+    rep.sample = Some(json!({"concurrent_drop": {"rounds": rounds, "owners": owners}, "records": recs, "end": format!("{:?}", end)}));
+    match &end {
+        End::Timeout => rep.inconclusive = Some("concurrent-drop stress timed out".into()),
+        End::Infra(e) => rep.inconclusive = Some(e.clone()),
+        End::Signaled(s) => rep.viol("C12/abort", format!("dropping the last owners of an instance on {} threads at once: the process was killed by signal {}", owners, s)),
+        End::Exited(_) => match recs.iter().find(|r| r["k"] == "stress") {
+            None => rep.viol("C12/abort", "the concurrent-drop stress did not finish".into()),
+            Some(r) => {
+                rep.count("concurrent_drop_rounds", r["rounds"].as_u64().unwrap_or(0));
+                if r["panicked"].as_u64().unwrap_or(0) > 0 {
+                    rep.viol("C12/drop-panic", format!("{} drops panicked when the last {} owners of an instance let go at the same time", r["panicked"], owners));
+                }
+                if r["leaked_pipe"].as_u64().unwrap_or(0) > 0 || r["woken_after"].as_u64().unwrap_or(0) > 0 {
+                    rep.viol("C12/leak", format!("round {}: the instance and its {} handle clone(s) were dropped at the same moment on different threads; afterwards its pipe was still open ({}) / a delivery still wrote into it ({}): nobody removed its registrations", r["first_bad"], owners.max(2) - 1, r["leaked_pipe"], r["woken_after"]));
+                }
+            }
+        },
+    }
+    rep
+}
+
+fn extra(def: &PropDef, args: &WorkerArgs, report: &mut WorkerReport) {
+    let known = Known::load();
+    let rounds = if args.tier == Tier::Thorough { 40_000 } else { 1500 };
+    for owners in [2u8, 3] {
+        let rep = concurrent_drop_probe(rounds, owners);
+        if let Some(v) = report.absorb(def, &rep, &known) {
+            report.violation = Some((v.key, v.msg, json!({"concurrent_drop": {"rounds": rounds, "owners": owners}})));
+            return;
+        }
+    }
+}
+
 fn worker(def: &PropDef, args: &WorkerArgs) -> WorkerReport {
     let teardown = crate::iter::strategy(true).prop_map(|mut c| {
         if c.late.is_empty() {
@@ -492,6 +610,9 @@ fn worker(def: &PropDef, args: &WorkerArgs) -> WorkerReport {
 }
 
 fn replay(v: &Value) -> CaseReport {
+    if let Some(c) = v.get("concurrent_drop") {
+        return concurrent_drop_probe(c["rounds"].as_u64().unwrap_or(1500) as u32, c["owners"].as_u64().unwrap_or(2) as u8);
+    }
     if let Ok(c) = serde_json::from_value::<C12Any>(v.clone()) {
         return run_any(&c);
     }
@@ -502,7 +623,7 @@ fn replay(v: &Value) -> CaseReport {
 pub static C12: PropDef = PropDef {
     id: "C12",
     prefixes: &["C12/"],
-    rule: "(second family, 1 case in 9: iterator scenarios under the schedule-owning executor with deliveries arriving while the instance and its handles are dropped - the teardown must finish and nothing the instance registered may act afterwards) forkprobe: exfiltrator (3) x constructor (SignalsInfo::new | SignalDelivery::with_pipe on a harness socketpair) x initial list x <=12 ops over {add_signal(n) via instance / via handle clone, clone handle, drop handle, drop instance, probe}, n from the full c_int range weighted to boundaries and forbidden numbers; after every step every watched signal is raised for real and must come out of pending() exactly once while the harness's own witness actions fire exactly once. Oracle: instance model (watched set, handle count), expected outcome per number (panic / Err / Ok, same way on repetition), no abort, no panicking drop, descriptor count back to baseline after teardown. Non-trivial = a rejected add followed by further operations, or a failing constructor; distinct = the case value",
+    rule: "(worker 0, every run: real-thread stress - the instance and 1-2 handle clones are dropped at the same moment on different threads, 1500 / 40 000 rounds; afterwards the pipe must be closed and a delivery must not write into it) (second family, 1 case in 9: iterator scenarios under the schedule-owning executor with deliveries arriving while the instance and its handles are dropped - the teardown must finish and nothing the instance registered may act afterwards) forkprobe: exfiltrator (3) x constructor (SignalsInfo::new | SignalDelivery::with_pipe on a harness socketpair) x initial list x <=12 ops over {add_signal(n) via instance / via handle clone, clone handle, drop handle, drop instance, probe}, n from the full c_int range weighted to boundaries and forbidden numbers; after every step every watched signal is raised for real and must come out of pending() exactly once while the harness's own witness actions fire exactly once. Oracle: instance model (watched set, handle count), expected outcome per number (panic / Err / Ok, same way on repetition), no abort, no panicking drop, descriptor count back to baseline after teardown. Non-trivial = a rejected add followed by further operations, or a failing constructor; distinct = the case value",
     assumptions: &[
         "a leaked registration is observed through the self-pipe write end it keeps open (descriptor count / handed-over fds), the registry offers no introspection",
         "signals are raised only once the library has taken them over",
@@ -511,5 +632,5 @@ pub static C12: PropDef = PropDef {
     shrink_iters: 300,
     worker,
     replay,
-    extra: None,
+    extra: Some(extra),
 };
